@@ -30,9 +30,9 @@ func (g *Gen) preamble() string {
 	b.WriteString("(declare-datatypes ((Slice 0)) (((mk-slice (sl.arr Int) (sl.off " + idx + ") (sl.len " + idx + ") (sl.cap " + idx + ")))))\n")
 	b.WriteString("(declare-datatypes ((Iface 0)) (((mk-iface (if.tag Int) (if.val Int)))))\n")
 	b.WriteString("(declare-sort Str 0)\n")
-	b.WriteString("(declare-fun str.len (Str) " + idx + ")\n")
-	b.WriteString("(declare-fun str.at (Str " + idx + ") " + g.byteSort().SMT() + ")\n")
-	b.WriteString("(declare-fun str.id (Str) Int)\n")
+	b.WriteString("(declare-fun gstr.len (Str) " + idx + ")\n")
+	b.WriteString("(declare-fun gstr.at (Str " + idx + ") " + g.byteSort().SMT() + ")\n")
+	b.WriteString("(declare-fun gstr.id (Str) Int)\n")
 	for _, d := range g.sortDecls {
 		b.WriteString(d)
 		b.WriteByte('\n')
